@@ -248,3 +248,46 @@ func vfC06Orientation(c int) {
 	rr.Reverse()
 	vfAssert("orientation-reversed-negated", rr.Orientation() == -o)
 }
+
+// ---- Bound as a value: Equal, Bound(), ToRing/ToPolygon, accessors, Pad, Center ----
+
+func vfC06BoundOps_N(tier int) int { return 2 }
+func vfC06BoundOps_Label(c int) string {
+	return []string{"positive-area", "degenerate-allowed"}[c]
+}
+
+func vfC06BoundOps(c int) {
+	a := vfBoundSym("a", 0)
+	b := vfBoundSym("b", 0)
+	if c == 0 {
+		vfAssume(vfAnd(a.Min[0] < a.Max[0], a.Min[1] < a.Max[1]))
+	}
+	vfReach("boundops")
+	vfAssert("bound-equal-iff-coords", a.Equal(b) == vfBoundEq(a, b))
+	vfAssert("bound-equal-generic", Equal(a, b) == vfBoundEq(a, b))
+	vfAssert("bound-of-bound-is-itself", vfBoundEq(a.Bound(), a))
+	r := a.ToRing()
+	vfAssert("toring-five-closed", vfAnd(len(r) == 5, vfAnd(r[0][0] == r[4][0], r[0][1] == r[4][1])))
+	vfAssert("toring-bound-is-the-box", vfBoundEq(r.Bound(), a))
+	for i := 0; i < len(r); i++ {
+		vfAssert("toring-vertices-are-corners", vfAnd(vfOr(r[i][0] == a.Min[0], r[i][0] == a.Max[0]), vfOr(r[i][1] == a.Min[1], r[i][1] == a.Max[1])))
+	}
+	if c == 0 {
+		vfAssert("toring-ccw", r.Orientation() == CCW)
+	}
+	pg := a.ToPolygon()
+	vfAssert("topolygon-one-ring", vfAnd(len(pg) == 1, vfBoundEq(pg.Bound(), a)))
+	vfAssert("accessors", vfAnd(vfAnd(a.Top() == a.Max[1], a.Bottom() == a.Min[1]), vfAnd(a.Left() == a.Min[0], a.Right() == a.Max[0])))
+	lt, rb := a.LeftTop(), a.RightBottom()
+	vfAssert("corner-accessors", vfAnd(vfAnd(lt[0] == a.Min[0], lt[1] == a.Max[1]), vfAnd(rb[0] == a.Max[0], rb[1] == a.Min[1])))
+	ce := a.Center()
+	vfAssert("center-inside", a.Contains(ce))
+	vfAssert("center-midpoint", vfAnd(ce[0]-a.Min[0] == a.Max[0]-ce[0], ce[1]-a.Min[1] == a.Max[1]-ce[1]))
+	d := vfReal("d")
+	vfAssume(d >= 0)
+	p := a.Pad(d)
+	vfAssert("pad-contains-original", vfAnd(p.Contains(a.Min), p.Contains(a.Max)))
+	vfAssert("pad-exact", vfAnd(vfAnd(a.Min[0]-p.Min[0] == d, a.Min[1]-p.Min[1] == d), vfAnd(p.Max[0]-a.Max[0] == d, p.Max[1]-a.Max[1] == d)))
+	vfAssert("pad-union-absorbs", vfBoundEq(p.Union(a), p))
+	vfAssert("iszero-iff-all-zero", a.IsZero() == vfAnd(vfAnd(a.Min[0] == 0, a.Min[1] == 0), vfAnd(a.Max[0] == 0, a.Max[1] == 0)))
+}
